@@ -77,15 +77,15 @@ pub fn int_forms() -> Vec<(String, Option<IntRange>, bool)> {
         (0, 256, true),
         (1, 256, false),
         (-128, 127, true),
-        (-129, 127, false),
+        (-129, 127, true),
         (0, 65535, true),
         (0, 65536, false),
-        (-32768, 32767, false),
+        (-32768, 32767, true),
         (0, 4294967295, true),
         (0, 4294967296, false),
-        (-2147483648, 2147483647, false),
+        (-2147483648, 2147483647, true),
         (0, i64::MAX, false),
-        (i64::MIN, i64::MAX, false),
+        (i64::MIN, i64::MAX, true),
     ];
     for (i, (lo, hi, q)) in lits.into_iter().enumerate() {
         v.push((format!("l{i}"), Some(IntRange::lit(lo, hi)), q));
